@@ -25,12 +25,14 @@ FAMILIES_WITH_THEOREM = [
     "E-AC-3 syncframe (finite sub-domain: all stream types, rate codes, block codes, channel modes, six frame sizes)",
     "AAC ADIF header + program config element (C05_adif: ALL field values -- copyright id, 23-bit bitrate, 20-bit buffer fullness, every "
     "sampling frequency index, 0..15 front/side/back elements single or pair, LFE / associated data / coupling elements, mixdown options, "
-    "comment bytes, 1..16 programs -- for variable-rate headers and one-program constant-rate headers; by arithmetic over a generic "
-    "BitReader-vs-packed-fields lemma library, not enumeration); C05_adif_cbr_multi_pce_refuted: constant rate with several programs"]
+    "comment bytes, 1..16 programs, both bitstream types; by arithmetic over a generic BitReader-vs-packed-fields lemma library, not "
+    "enumeration); C05_adif_cbr_multi_pce_regression: constant rate with two programs (fixed 2eb4867)",
+    "Monkey's Audio header before 3.98 without stored WAVE header (C05_ape_old: every version < 3980 x compression level; "
+    "C05_ape_old_extra_high_regression, fixed 66533d3)"]
 FAMILIES_WITHOUT_THEOREM = [
     "other LAME version strings than LAME3.99r (modelled: LAMEHeader.parse_version; correspondence + oracle on eight strings)",
     "Musepack SV4-SV6 (modelled; correspondence + oracle on harness-written headers)",
-    "Monkey's Audio < 3.98 (modelled; correspondence + oracle on harness-written headers)",
+    "Monkey's Audio < 3.98 with a stored WAVEfmt header (bits_per_sample from it; correspondence + oracle on harness-written headers)",
     "WavPack block walk for unknown totals / non-zero first block index (modelled; correspondence + oracle on multi-block files)",
     "layouts around the modelled headers: ID3v2 in front of MPEG / FLAC / Musepack, leading bytes and 2..5 MPEG frames, FLAC with further "
     "metadata blocks, WAVE without data chunk, a foreign logical stream around each Ogg codec stream (harness-written; oracle + correspondence)",
@@ -44,7 +46,7 @@ BRANCH_AUDIT = [
      "ID3v2 (stacked) skip, leading bytes, 2..5 frames (sketchy flag); Xing/Info flags, LAME ext, 9 LAME version strings, VBRI",
      "resync after a false sync / max_syncs, `offset` argument, encoder_settings / bitrate_mode guess, track/album gain of the LAME header"),
     ("aac ADIF", "copyright id, original/home, bitstream type, bitrate, fullness, every PCE field and count, 1..16 programs, ID3v2 prefix, truncation, "
-     "seek past the end", "constant rate with > 1 program is judged by correspondence only (reported defect)"),
+     "seek past the end", "-"),
     ("aac ADTS (oracle only)", "ID, profile, sfi 0..15, private, channel configuration 0..7, original/home, protection_absent x raw-block count (crc overhead), "
      "13-bit frame length, fullness, 3..150 frames, leading bytes, ID3v2", "differing fixed headers between frames, resync (max_resync_read), < 3 frames, "
      "length only within (2 * leading + 2) / stream size (documented guess)"),
@@ -56,11 +58,11 @@ BRANCH_AUDIT = [
     ("dsdiff (oracle only)", "FS, CHNL, CMPR DSD/DST, DSD size, FRTE count/rate, DST size, sub-chunk order, extra chunks", "negative rate check (unreachable), truncated sub-chunks"),
     ("tta / optimfrog", "all header fields, ID3v2 prefix; data size 12 / >= 15, sample types 0..255", "-"),
     ("wavpack", "version, total, block samples, flags (bytes, mono, rate idx 0..15, DSD), block walk (unknown total, index != 0, 0..3 further blocks)", "-"),
-    ("monkeysaudio", ">= 3.98 descriptor fields; old header: versions around 3800/3900/3950, compression levels, WAVEfmt bits", "3.80-3.89 with level 4 / 4000: "
-     "length not judged (reported defect)"),
+    ("monkeysaudio", ">= 3.98 descriptor fields; old header: versions around 3800/3900/3950, compression levels incl. 4 / 4000, WAVEfmt bits", "-"),
     ("musepack", "SV7 fields + gains, SV8 SH/RG varints, rate idx 0..7, malformed packet streams, SV4-6, ID3v2 prefix, extra packets, RG before SH", "-"),
     ("tak (oracle only)", "every STREAMINFO field, extension / speaker assignment up to 12 channels, encoder info, blocks before the stream info, unused bit",
-     "speaker assignment for 13..16 channels (block size refused by the size check, noted)"),
+     "speaker assignment for 13..16 channels: not judged (the layout is known only from ffmpeg's reader; such a block is refused by "
+     "TAKInfo's size check)"),
     ("ogg vorbis/opus/speex/theora/flac", "every id header field, granule lattice, bitrate rule orderings, rejected versions / markers, truncated packets, foreign "
      "logical stream before/after", "id header on a non-BOS page, header packets spanning pages (C03/Fam_ogg)"),
     ("mp4 (oracle only)", "mdhd v0/v1 timescale + duration lattices, entry channels/size/rate, esds flags + 1..4 byte lengths (> 127 bytes), objectTypeIndication, "
@@ -85,9 +87,9 @@ TRUSTED = [
     "hand-written from the format specifications (ISO/IEC 13818-7, 14496-1/-3/-12, ETSI TS 102 366, ASF 1.2, DSDIFF 1.5, the TAK "
     "stream info layout as read by ffmpeg) and are NOT machine checked; implicit-SBR rule: a sampling frequency <= 24 kHz without "
     "signalling counts as unknown (the AudioSampleEntry value is reported)",
-    "NOT covered: ADIF constant-rate headers with more than one program (length / acceptance judged by correspondence only, reported); "
-    "Monkey's Audio 3.80-3.89 with compression level 4 or 4000 (length not judged, reported); ADTS duration only within the documented "
-    "guess tolerance; TAK stream info blocks above 20 data bytes; the branches listed as not driven in coverage.branch_audit",
+    "NOT covered / not judged: TAK stream info blocks above 20 data bytes (speaker assignment for 13..16 channels): the TAK layout is "
+    "known only from ffmpeg's reader, no claim is made; ADTS duration only within the documented guess tolerance; the branches listed as "
+    "not driven in coverage.branch_audit",
 ]
 MANIFEST = {
     "text": "full per modelled decoder; long tail staged. For each Stage-1 format a spec-side builder and a code-side decoder "
@@ -1301,9 +1303,6 @@ class Eac3(RangedFmt):
 
 
 # ---- layout / legacy variants: harness-side writers around the extracted builders, code-side decoders shared ------------
-APE_OLD_EXTRA_HIGH_STRICT = False     # reported: MonkeysAudioInfo compares the compression level with 4, the format's "extra high" is 4000
-
-
 def id3v2(n):
     return b"ID3\x04\x00\x00" + bytes([(n >> 21) & 127, (n >> 14) & 127, (n >> 7) & 127, n & 127]) + b"\x00" * n
 
@@ -1481,6 +1480,11 @@ class ApeOld(Ape):
     def build(self, ctx, p):
         ver, comp, flags, ch, rate, hb, tb, frames, ffb, wavefmt, bits = p
         h = b"MAC " + struct.pack("<HHHHIIIII", ver, comp, flags, ch, rate, hb, tb, frames, ffb)
+        if not wavefmt:
+            b = mbuild(ctx, "ape_old", ver, comp, flags, ch, rate, hb, tb, frames, ffb)     # the extracted spec-side builder
+            if b != h + b"\x00" * 44:
+                ctx.disagree("c05.ape-old", "extracted builder differs from the reference writer on %r" % (p,), {"fmt": "ape-old", "params": [str(x) for x in p]})
+            return b
         h += b"\x11" * 16
         if wavefmt:
             h += b"WAVEfmt \x10\x00\x00\x00\x01\x00" + struct.pack("<HIIH", ch, rate & 0xFFFFFFFF, 0, 4) + struct.pack("<H", bits)
@@ -1492,8 +1496,6 @@ class ApeOld(Ape):
     def spec(self, p, file):
         ver, comp, flags, ch, rate, hb, tb, frames, ffb, wavefmt, bits = p
         r = {"version": ver / 1000.0, "channels": ch, "sample_rate": rate, "bits_per_sample": bits if wavefmt else 0}
-        if 3800 <= ver < 3900 and comp in (4, 4000) and not APE_OLD_EXTRA_HIGH_STRICT:
-            return r
         if ver >= 3950:
             bpf = 73728 * 4
         elif ver >= 3900 or (ver >= 3800 and comp == 4000):
@@ -1634,11 +1636,6 @@ def flac_write_case(ctx, p):
 
 # ---- AAC ADIF (ISO/IEC 13818-7 adif_header + program_config_element) -----------------------------------
 AAC_FREQS = [96000, 88200, 64000, 48000, 44100, 32000, 24000, 22050, 16000, 12000, 11025, 8000, 7350]
-# the defect reported for the unchanged tree: adif_buffer_fullness precedes EVERY program config element of a constant-rate
-# header, AACInfo._parse_adif skips it only before the first one (C05_adif_cbr_multi_pce_refuted).  While False the parameter
-# oracle does not judge the position-derived length (and a rejection) of constant-rate headers with more than one program.
-ADIF_CBR_MULTI_PCE_STRICT = False
-
 
 class BitW:
     """independent MSB-first bit writer (reference for the extracted builder)"""
@@ -1718,8 +1715,7 @@ def adif_spec(P):
     tag, ot, sfi, front, side, back, lfe = pces[0][:7]
     r = {"type": "ADIF", "sample_rate": AAC_FREQS[sfi] if sfi < len(AAC_FREQS) else 0,
          "channels": sum(1 + (e >> 4) for e in front + side + back) + len(lfe), "bitrate": bitrate}
-    if bst == 1 or len(pces) == 1 or ADIF_CBR_MULTI_PCE_STRICT:
-        r["length"] = fdiv(8 * tail, bitrate) if bitrate else 0
+    r["length"] = fdiv(8 * tail, bitrate) if bitrate else 0
     return r
 
 
@@ -1762,9 +1758,6 @@ def adif_case(ctx, P, tag, cut=None):
     # parameter oracle
     ctx.oracle_cases += 1
     if st != "ok":
-        if bst == 0 and len(pces) > 1 and not ADIF_CBR_MULTI_PCE_STRICT:
-            ctx.count("adif:cbr-multi-pce-rejected(reported defect)")
-            return True
         ctx.violation("oracle", "adif: valid header not loaded (%s)" % impl, dict(slug, **{"class": "aac-adif-rejected"}))
         return False
     bad = cmp_dicts(impl, adif_spec(P))
